@@ -231,7 +231,8 @@ def rule_projection(chk, prog):
     else:
         pc = path_condition(fn, push[0])
         fl = [x for x in atoms(pc) if x.endswith(".unsatisfiable")]
-        if not fl or not entails(pc, ("atom", fl[0])):
+        other = [x for x in atoms(pc) if x not in fl and ".end()" not in x]
+        if not fl or not entails(pc, ("atom", fl[0])) or other:
             bad = "a constraint is reported under %s, not exactly when it is flagged unsatisfiable" % show(pc)
         lp = [a for a in fn.ancestors(push[0]) if a.get("k") == "ForStmt"]
         if not lp or norm(lp[0]["init"]["decls"][0].get("init")) != "cs.begin()" or not norm(lp[0].get("cond")).endswith("!= cs.end())"):
